@@ -1,7 +1,7 @@
 (* C02 -- Parsing is total: an error or a valid profile for any bytes.
    Property theorems only.  Model: M_Codec (protobuf path) + M_Valid (CheckValid, ParseData
    dispatch with the gzip reader and the legacy parsers as arbitrary oracles). *)
-From PV Require Import M_Codec M_Valid S_Valid L_Codec_Total L_Valid.
+From PV Require Import M_Codec M_Valid S_Valid L_Codec_Total L_Valid L_Codec_Parsed.
 Open Scope list_scope.
 Open Scope Z_scope.
 
@@ -47,12 +47,19 @@ Theorem parse_returns_valid : forall gunzip legacy data p,
 Proof. exact parse_data_contract. Qed.
 Print Assumptions parse_returns_valid.
 
-(* the part of the statement not proved: "a returned profile can always be written, copied, compacted
-   and turned into any text report without a crash" is explored by the harness on every accepted input
-   (Write, Copy, Compact, all text reports) and, for Write/Copy of profiles satisfying S_Codec.valid_b,
-   proved in P_C01.serialize_never_panics *)
+(* "a profile returned by the parser can always be written": serialization has two panic sites
+   (units[i] with a short unit list, a nil sample location); postDecode's padding invariant and
+   CheckValid exclude both, for every byte string *)
+Theorem parsed_profile_can_be_written_partial : forall data q,
+  parse_uncompressed data = Ok q -> check_valid q = true -> exists b, serialize q = Ok b.
+Proof. exact parsed_serializes. Qed.
+Print Assumptions parsed_profile_can_be_written_partial.
+
+(* the rest of that clause (Copy, Compact, every text report never crash) is explored by the harness
+   on every accepted input; the models of those operations belong to C03/C04/C05/C17/C18 *)
 Definition full_statement_valid_closed_under_ops : Prop :=
-  forall gunzip legacy data p, parse_data gunzip legacy data = Ok p -> no_panic (serialize p).
+  forall gunzip legacy data p, parse_data gunzip legacy data = Ok p ->
+    no_panic (serialize p) /\ no_panic (copy p).
 
 Example contract_nonvacuous :
   exists data p, parse_data (fun d => Ok d) (fun _ => Err 1) data = Ok p /\ p_sample p <> [].
